@@ -381,6 +381,25 @@ func c15Sequential(c *rt.Ctx, h, n int, churn bool) {
 				}
 			}
 		}
+		// the administrator is the identity with id 0 created with the identity manager, whatever happened to its name
+		if what := func() (what string) {
+			defer func() {
+				if p := recover(); p != nil {
+					what = fmt.Sprint("the accessors panic: ", p)
+				}
+			}()
+			au, ag := idm.AdminUser(), idm.AdminGroup()
+			if au == nil || ag == nil {
+				return "AdminUser() or AdminGroup() is nil"
+			}
+			if au.Uid() != 0 || au.Gid() != 0 || !au.IsAdmin() || au.Name() != c15AdminUser || ag.Gid() != 0 || ag.Name() != c15AdminGroup {
+				return fmt.Sprintf("AdminUser() = {%s uid=%d gid=%d admin=%v}, AdminGroup() = {%s gid=%d}", au.Name(), au.Uid(), au.Gid(), au.IsAdmin(), ag.Name(), ag.Gid())
+			}
+			return ""
+		}(); what != "" {
+			c.Disagree("seq|admin-accessors|after:"+o.K, fmt.Sprintf("MemIdm: after %s %s", o, what), map[string]any{"history": hist})
+			return
+		}
 		if bad := idm.VerifCheck(); len(bad) > 0 {
 			c.Disagree("seq|internal-maps|after:"+o.K, fmt.Sprintf("MemIdm: after %s the internal maps are out of step: %v", o, bad), map[string]any{"history": hist})
 			return
